@@ -862,3 +862,103 @@ func cbmNumbering(c *Ctx, id string) {
 		}, "number = position of the first instance with this member's id, size = len(list); announce ⇔ changed; record the list; absent ⇒ fatal")
 	}
 }
+
+// livenessTest (C10): which instances count as live. isAlive compares wall-clock readings, so its truth over time is not
+// decidable here; what is decidable is the *linear form* of the comparison it returns: with every operand moved to one
+// side it must read  interval + tolerance + lastHeartbeat − now > 0  (≥ accepted: the boundary instant is immaterial),
+// whatever the operand order, mirroring or temporaries. A flipped sign or comparison makes every member (or none) count
+// as dead — the group renumbers wrongly or stops.
+func livenessTest(c *Ctx, id string) {
+	w := c.W
+	fn := w.Method("couchbase", "cbMembership", "isAlive")
+	c.need(fn != nil && len(fn.Params) == 2, id, "cbMembership.isAlive(heartbeatTime)")
+	c.see(fn)
+	var ret *ssa.Return
+	allInstrs(fn, func(in ssa.Instruction) {
+		if r, ok := in.(*ssa.Return); ok {
+			ret = r
+		}
+	})
+	c.need(ret != nil && len(ret.Results) == 1, id, "isAlive's return")
+	cmp, ok := unwrap(ret.Results[0]).(*ssa.BinOp)
+	if !ok {
+		c.Undecided(id, "liveness-form", fn.Pos(), "isAlive does not return a comparison: %s", w.Origin(ret.Results[0]))
+		return
+	}
+	// linear form of an integer expression over leaves
+	depth := 0
+	var lin func(v ssa.Value, sign int, out map[string]int) bool
+	lin = func(v ssa.Value, sign int, out map[string]int) bool {
+		switch x := v.(type) {
+		case *ssa.BinOp:
+			switch x.Op.String() {
+			case "+":
+				return lin(x.X, sign, out) && lin(x.Y, sign, out)
+			case "-":
+				return lin(x.X, sign, out) && lin(x.Y, -sign, out)
+			}
+			return false
+		case *ssa.Convert:
+			return lin(x.X, sign, out)
+		case *ssa.ChangeType:
+			return lin(x.X, sign, out)
+		case *ssa.Call:
+			// d.Nanoseconds() is d in nanoseconds
+			if cal := x.Common().StaticCallee(); cal != nil && cal.Name() == "Nanoseconds" && len(x.Common().Args) == 1 {
+				return lin(x.Common().Args[0], sign, out)
+			}
+		}
+		// a field of the membership that is written once (a window computed at construction): what was stored
+		if ld, isLd := v.(*ssa.UnOp); isLd && ld.Op.String() == "*" && depth < 3 {
+			if f := fieldOfAddr(ld.X); f != nil {
+				if sts := w.fieldStores(f); len(sts) == 1 {
+					depth++
+					ok := lin(sts[0].Store.Val, sign, out)
+					depth--
+					return ok
+				}
+			}
+		}
+		out[w.Origin(v)] += sign
+		return true
+	}
+	form := map[string]int{}
+	var okL bool
+	switch cmp.Op.String() {
+	case "<", "<=": // X < Y  ⇔  Y − X > 0
+		okL = lin(cmp.Y, 1, form) && lin(cmp.X, -1, form)
+	case ">", ">=": // X > Y  ⇔  X − Y > 0
+		okL = lin(cmp.X, 1, form) && lin(cmp.Y, -1, form)
+	}
+	if !okL {
+		c.Undecided(id, "liveness-form", cmp.Pos(), "the liveness comparison is not a sum/difference of readings: %s", w.Origin(cmp))
+		return
+	}
+	role := func(o string) string {
+		switch {
+		case strings.HasSuffix(o, ".HeartbeatInterval"):
+			return "interval"
+		case strings.HasSuffix(o, ".HeartbeatToleranceDuration"):
+			return "tolerance"
+		case o == "param("+fn.Params[1].Name()+")":
+			return "lastHeartbeat"
+		case strings.Contains(o, "UnixNano)(call(time.Now)())"):
+			return "now"
+		}
+		return o
+	}
+	got := map[string]int{}
+	for o, k := range form {
+		if k != 0 {
+			got[role(o)] += k
+		}
+	}
+	want := map[string]int{"interval": 1, "tolerance": 1, "lastHeartbeat": 1, "now": -1}
+	same := len(got) == len(want)
+	for k, v := range want {
+		if got[k] != v {
+			same = false
+		}
+	}
+	c.Check(same, id, "liveness-form", cmp.Pos(), "alive ⇔ interval + tolerance + lastHeartbeat − now > 0", fmt.Sprintf("the liveness test reads %v > 0, expected interval + tolerance + lastHeartbeat − now > 0", got))
+}
